@@ -571,6 +571,64 @@ theorem default_def (hc : c.isHtml = true) :
   rw [← this]
   cases c.isHtmlTag e <;> cases typeIs c e "submit" <;> cases (tagIs c e "button" || tagIs c e "input") <;> rfl
 
+
+/-- In a well-formed tree the document object can only be the *last* ancestor, and it is not a
+    `form`. -/
+def DocOnlyOnTop (c : Ctx) (l : Loc) : Prop :=
+  ∀ pre d post, c.ancestors l true = pre ++ d :: post → d.isDoc = true →
+    post = [] ∧ isHtmlForm c d = false
+
+theorem any_takeWhile_of_last {α} (P q : α → Bool) :
+    ∀ (L : List α), (∀ pre d post, L = pre ++ d :: post → q d = false → post = [] ∧ P d = false) →
+      (L.takeWhile q).any P = L.any P
+  | [], _ => rfl
+  | x :: xs, H => by
+    rw [List.takeWhile_cons]
+    cases hq : q x with
+    | true =>
+      simp only [if_true, List.any_cons]
+      rw [any_takeWhile_of_last P q xs (fun pre d post h hd => H (x :: pre) d post (by rw [h]; rfl) hd)]
+    | false =>
+      obtain ⟨hpost, hP⟩ := H [] x xs rfl hq
+      subst hpost
+      simp [hP]
+
+/-- Under `DocOnlyOnTop` the combinator test `html|form ` is implied by `match_default` … -/
+theorem inFormRel_of_matchDefault (hd : DocOnlyOnTop c l) (h : matchDefault c l = true) :
+    ancestorIs c l (isHtmlForm c) = true := by
+  unfold ancestorIs
+  rw [any_takeWhile_of_last (isHtmlForm c) (fun p => !p.isDoc) _
+    (fun pre d post hs hq => hd pre d post hs (by simpa using hq))]
+  unfold matchDefault at h
+  cases hf : defaultForm c l with
+  | none => rw [hf] at h; cases h
+  | some f =>
+    unfold defaultForm at hf
+    have hmem := List.mem_of_find?_eq_some hf
+    have hp := List.find?_some hf
+    rw [List.any_eq_true]
+    refine ⟨f, hmem, ?_⟩
+    unfold isHtmlForm
+    cases hfe : f.elem? with
+    | none => rw [hfe] at hp; cases hp
+    | some fe =>
+      rw [hfe] at hp
+      simp only [Bool.and_eq_true, tagIs] at hp ⊢
+      exact ⟨hp.2, hp.1⟩
+
+/-- … so `:default` ⇔ `:checked` ∨ (a `button`/`input` of type `submit` that is the first submit
+    button of its nearest HTML `form`). -/
+theorem default_def_wellformed (hc : c.isHtml = true) (hd : DocOnlyOnTop c l) :
+    matchList c l e Gen.CSS_DEFAULT =
+      (matchList c l e Gen.CSS_CHECKED ||
+        (c.isHtmlTag e && (tagIs c e "button" || tagIs c e "input") && typeIs c e "submit" &&
+          matchDefault c l)) := by
+  rw [default_eq c l e hc, inFormRel_eq]
+  have := inFormRel_of_matchDefault c l hd
+  revert this
+  cases matchDefault c l <;> cases ancestorIs c l (isHtmlForm c) <;>
+    cases c.isHtmlTag e <;> cases typeIs c e "submit" <;> cases (tagIs c e "button" || tagIs c e "input") <;> simp
+
 /-! ### `:indeterminate` -/
 
 /-- `:indeterminate` ⇔ a checkbox `input` carrying `indeterminate`; or an unchecked radio `input`
